@@ -434,6 +434,11 @@ func runSess(c Case) result {
 		if o.K == "rid" {
 			idset[uint64(o.S)] = true
 		}
+		if o.K == "n" { // the counter is moved: ids around the new position, as far as the creations can reach
+			for i := -1; i <= nCreate+1; i++ {
+				idset[uint64((o.S+i+65536)%65536)] = true
+			}
+		}
 	}
 	var pids, pmacs []uint64
 	for k := range idset {
@@ -497,6 +502,13 @@ func runSess(c Case) result {
 					tags["sess:id0"] = true
 				}
 			}
+		case "n":
+			if o.S < 1 || o.S > 65535 {
+				panic("sess: the counter is never 0")
+			}
+			op = fmt.Sprintf("SSetNext %d", o.S)
+			m.VerifSetNextID(uint16(o.S))
+			ret = "RNone"
 		case "rold", "rnew", "rid":
 			id := o.S
 			if o.K != "rid" {
